@@ -383,3 +383,32 @@ def register(M):
     M('C08_nexec', ['C08'], 'doctest_part.py',
       "        return len(self.exec_lines)\n", "        return len([ln for ln in self.exec_lines if ln.strip()])\n",
       'n_exec_lines ignores blank source lines of the part')
+
+    # ---- C10 ---------------------------------------------------------------
+    M('C10_exit', ['C10'], '__main__.py',
+      "    if n_failed > 0:\n        return 1", "    if n_failed > 1:\n        return 1",
+      'exit status non-zero only for two or more failures')
+    M('C10_exit_total', ['C10'], '__main__.py',
+      "    n_failed = run_summary.get('n_failed', 0)\n", "    n_failed = run_summary.get('n_total', 0) - run_summary.get('n_passed', 0)\n",
+      'exit status derived from total minus passed (skipped doctests make the run fail)')
+    M('C10_rundisabled', ['C10'], 'runner.py',
+      "                if gather_all and example.is_disabled():\n                    continue\n", "",
+      'force-disabled doctests are run by all')
+    M('C10_failedlist', ['C10'], 'runner.py',
+      "            if summary['skipped']:\n                pass\n", "            if False:\n                pass\n",
+      'skipped doctests are appended to the failed list')
+    M('C10_named_disabled', ['C10'], 'runner.py',
+      "                if gather_all and example.is_disabled():", "                if example.is_disabled():",
+      'a named force-disabled doctest is not run')
+    M('C10_list', ['C10'], 'runner.py',
+      "                                          for example in examples]))", "                                          for example in examples if not example.is_disabled()]))",
+      'list omits force-disabled doctests')
+    M('C10_unstable', ['C10'], 'doctest_example.py',
+      "            r'>>>\\s*#\\s*UNSTABLE',\n", "",
+      'UNSTABLE no longer force-disables')
+    M('C10_failfast', ['C10', 'C09'], 'runner.py',
+      "                failed.append(example)\n", "                failed.append(example)\n                if len(failed) >= 3:\n                    break\n",
+      'the run stops after the third failure')
+    M('C10_substr', ['C10'], 'runner.py',
+      "            if gather_all or command in example.valid_testnames:", "            if gather_all or any(command in n for n in example.valid_testnames):",
+      'a named doctest is matched by substring (f1 also runs f10, f1:0 also f1:0x)')
